@@ -663,3 +663,25 @@ func vContainsSignedMaterial(body []byte) bool {
 	}
 	return false
 }
+
+func firstLine(s string) string {
+	if i := strings.IndexByte(s, '\n'); i >= 0 {
+		return s[:i]
+	}
+	return s
+}
+
+func vPKIX(pub interface{}) []byte {
+	der, err := x509.MarshalPKIXPublicKey(pub)
+	if err != nil {
+		panic(err)
+	}
+	return der
+}
+
+func trunc(b []byte, n int) string {
+	if len(b) > n {
+		return string(b[:n]) + "..."
+	}
+	return string(b)
+}
